@@ -8,7 +8,9 @@ import GoldModel.Model.Pool
   queue holds no job; joined workers have exited; `Terminate`s sent = in queue + consumed.
 
 Each is proved for every pool size, every job list and every interleaving (induction over
-`Reachable`).  The property theorems that follow from them are in `Props/C20.lean`.
+`Reachable`).  The last section has the ingredients of the liveness side (`worker_can_move`:
+after all `Terminate`s are out some worker step is always enabled; `potential`: a measure
+that every step lowers once `drop` has begun).  The property theorems that follow from them are in `Props/C20.lean`.
 -/
 namespace Gold.Pool
 
